@@ -51,6 +51,8 @@ type RunReq struct {
 	SchedOff   int64                      `json:"sched_offset"`
 	WantTypes  bool                       `json:"want_types"`
 	EchoModule string                     `json:"echo_module"` // if set: the text of every module the request does not define
+	Watchers   int                        `json:"watchers"`    // vm: main is spawned asynchronously, the host waits with Wait, and this many
+	// further host goroutines wait with WaitNonConsuming
 }
 
 type Invocation struct {
@@ -459,6 +461,52 @@ func doRun(req *RunReq) (*RunRes, error) {
 					cancel()
 				})
 			}
+		}
+		if req.Watchers > 0 {
+			vm.SpawnAsync(hmsrt.MainFn(), nil, nil, nil)
+			back := make(chan int, req.Watchers)
+			for k := 0; k < req.Watchers; k++ {
+				go func(k int) { vm.WaitNonConsuming(); back <- len(vm.Cores.Cores) }(k)
+			}
+			type wres struct {
+				c uint
+				i *vmValue.VmInterrupt
+			}
+			wdone := make(chan wres, 1)
+			go func() { c, i := vm.Wait(); wdone <- wres{c, i} }()
+			patience := time.After(timeout + 2*time.Second)
+			stuck := false
+			select {
+			case w := <-wdone:
+				if w.i != nil {
+					res.Outcome = vmOutcome(w.c, w.i)
+				} else {
+					res.Outcome = &Outcome{Kind: "done"}
+				}
+			case <-patience:
+				res.Outcome = &Outcome{Kind: "wait-stuck"}
+				stuck = true
+			}
+			returned, sawCores := 0, 0
+			grace := time.After(2 * time.Second)
+			for k := 0; k < req.Watchers && !stuck; k++ {
+				select {
+				case n := <-back:
+					returned++
+					sawCores += n
+				case <-grace:
+					stuck = true
+				}
+			}
+			res.Residue = map[string]any{"watchers": req.Watchers, "watchers_returned": returned, "cores_seen_on_return": sawCores}
+			res.Trace = tracer.stop()
+			if stuck {
+				exitAfterReply = true // goroutines of this run are spinning or blocked for good
+			}
+			st.mu.Lock()
+			res.Out = st.out.String()
+			st.mu.Unlock()
+			return res, nil
 		}
 		if len(req.Invoke) == 0 {
 			r := vm.SpawnSync(hmsrt.MainFn(), nil, nil)
